@@ -21,7 +21,7 @@ import (
 //                           after the last record returned, OK|ERR (Err() == nil)       [both sides]
 //   scan.auto x<text>       (props_c07.go) verdict and kind:length per record            [both sides now:
 //                           lean/Gts/Model/OpsAuto.lean answers it with the default registry]
-//   cli.fasta x<cmd> x<flag> x<input>   the real binary `gts <cmd> --no-cache <flag> fasta < input` (no option when <flag> is empty):
+//   cli.fasta x<cmd> x<flag> x<input> [1]   the real binary `gts <cmd> --no-cache [-o out.gb] <flag> fasta < input` (no option when <flag> is empty):
 //                           `status x<stdout>`                                          [implementation only]
 //
 // Oracles on the real code (lean/Gts/Props/C17.lean states them for the model):
@@ -43,8 +43,11 @@ func init() {
 		d := newCliDir()
 		defer d.close()
 		var args []string
+		if len(a) > 3 && decInt(a[3]) == 1 {
+			args = []string{"-o", "@OUT:out.gb"}
+		}
 		if flag := string(decBytes(a[1])); flag != "" {
-			args = []string{flag, "fasta"}
+			args = append(args, flag, "fasta")
 		}
 		res := d.run(cliRun{cmd: string(decBytes(a[0])), args: args, primary: inHex(decBytes(a[2]))}, true)
 		return fmt.Sprintf("%d %s", res.status, encBytes(res.out))
@@ -425,12 +428,13 @@ func c17CLI(r *Run) {
 				flag = "--format"
 			}
 			op := "cli.fasta " + encStr(c.name) + " " + encStr(flag) + " " + encBytes(in.text)
-			crumb(op)
 			args := []string{flag, "fasta"}
 			if (ii+ci)%4 == 3 {
 				// the output path says GenBank, the option says FASTA: the option wins
 				args = []string{"-o", "@OUT:out.gb", flag, "fasta"}
+				op += " 1"
 			}
+			crumb(op)
 			res := d.run(cliRun{cmd: c.name, args: args, primary: inHex(in.text)}, true)
 			r.count("cli -F fasta/" + c.name)
 			r.count("cli -F fasta/input " + strings.SplitN(in.name, "/", 2)[0])
@@ -440,7 +444,7 @@ func c17CLI(r *Run) {
 			}
 			got := fmt.Sprintf("%d %s", res.status, encBytes(res.out))
 			if res.status != 0 || !bytes.Equal(res.out, want) {
-				r.fail(Failure{Oracle: fmt.Sprintf("`gts %s %s fasta` writes Fasta{description, residues} for every input record (GenBank input: `version definition`; residues as the command leaves them)", c.name, strings.Join(args, " ")),
+				r.fail(Failure{Oracle: fmt.Sprintf("`gts %s %s` writes Fasta{description, residues} for every input record (GenBank input: `version definition`; residues as the command leaves them)", c.name, strings.Join(args, " ")),
 					Op: op, Got: got, Want: "0 " + encBytes(want)})
 				continue
 			}
